@@ -206,16 +206,23 @@ impl<'a> TypstTranslator<'a> {
         // Parse a function call
         let parse_func_call = |func: FuncCall| {
             let parse_args_ignored = |ignore_pos: bool, ignore_nameds: &[&str]| {
-                let (dead, alive): (Vec<_>, Vec<_>) = func.args().items().partition(|a| match a {
-                    Arg::Pos(_) => ignore_pos,
-                    Arg::Named(named) => ignore_nameds.contains(&named.name().as_str()),
-                    Arg::Spread(_) => false,
-                });
-
+                // Ignored and linted arguments are emitted in the order they are written.
                 Some(
-                    dead.iter()
-                        .flat_map(|a| token!(a, TokenKind::Unlintable))
-                        .chain(parse_args(&mut alive.into_iter()))
+                    func.args()
+                        .items()
+                        .filter_map(|a| {
+                            let dead = match a {
+                                Arg::Pos(_) => ignore_pos,
+                                Arg::Named(named) => ignore_nameds.contains(&named.name().as_str()),
+                                Arg::Spread(_) => false,
+                            };
+
+                            if dead {
+                                token!(a, TokenKind::Unlintable)
+                            } else {
+                                parse_args(&mut std::iter::once(a))
+                            }
+                        })
                         .flatten()
                         .collect_vec(),
                 )
@@ -341,14 +348,16 @@ impl<'a> TypstTranslator<'a> {
             Expr::DestructAssign(destruct_assignment) => {
                 recurse!(destruct_assignment.value())
             }
+            // Tokens have to come out in source order: `set target(args) if condition`,
+            // `show selector: transform`.
             Expr::Set(set_rule) => merge![
                 recurse!(set_rule.target()),
-                set_rule.condition().and_then(|expr| recurse!(expr)),
-                parse_args(&mut set_rule.args().items())
+                parse_args(&mut set_rule.args().items()),
+                set_rule.condition().and_then(|expr| recurse!(expr))
             ],
             Expr::Show(show_rule) => merge![
-                recurse!(show_rule.transform()),
-                show_rule.selector().and_then(|expr| recurse!(expr))
+                show_rule.selector().and_then(|expr| recurse!(expr)),
+                recurse!(show_rule.transform())
             ],
             Expr::Contextual(contextual) => recurse!(contextual.body()),
             Expr::Conditional(conditional) => merge![
